@@ -601,19 +601,59 @@ func (c *Ctx) expiryChecker(f *ssa.Function) int {
 	if li < 0 {
 		return -1
 	}
-	parses := false
-	for _, call := range callsIn(f, "time.Parse") {
-		if org(call.Common().Args[1]) == fmt.Sprintf("p%d.Expires", li) {
-			parses = true
-		}
-	}
-	if !parses {
+	if p, _ := c.expiryParse(f, li); p == nil {
 		return -1
 	}
 	if hasTime || len(callsIn(f, "time.Now", "time.Until", "time.Since")) > 0 {
 		return li
 	}
 	return -1
+}
+
+// expiryParse finds where f turns its Layout parameter's Expires into a time: a time.Parse / time.ParseInLocation
+// call on it, in f or in a one-parameter string helper of package in_toto that f hands it to. It returns the parse
+// call and the call in f whose first result is the parsed time.
+func (c *Ctx) expiryParse(f *ssa.Function, li int) (parse ssa.CallInstruction, inF ssa.CallInstruction) {
+	want := fmt.Sprintf("p%d.Expires", li)
+	for _, call := range callsIn(f, "time.Parse", "time.ParseInLocation") {
+		if org(call.Common().Args[1]) == want {
+			return call, call
+		}
+	}
+	for _, via := range allCalls(f) {
+		g := via.Common().StaticCallee()
+		if g == nil || g.Blocks == nil || g.Pkg != f.Pkg || len(g.Params) != 1 || typeStr(g.Params[0].Type()) != "string" {
+			continue
+		}
+		if len(via.Common().Args) != 1 || org(via.Common().Args[0]) != want {
+			continue
+		}
+		if rs := resultTypes(g); len(rs) != 2 || rs[0] != "time.Time" || rs[1] != "error" {
+			continue
+		}
+		for _, call := range callsIn(g, "time.Parse", "time.ParseInLocation") {
+			if resolve(call.Common().Args[1], call) != ssa.Value(g.Params[0]) {
+				continue
+			}
+			all := true
+			for _, r := range returnsOf(g) {
+				if pc, idx := producer(r.Results[0], r); pc != call || idx != 0 {
+					if !isZeroTime(r.Results[0]) {
+						all = false
+					}
+				}
+			}
+			if all {
+				return call, via
+			}
+		}
+	}
+	return nil, nil
+}
+
+func isZeroTime(v ssa.Value) bool {
+	o := org(v)
+	return strings.HasPrefix(o, "const(") || strings.Contains(o, "complit") || strings.HasPrefix(o, "local(")
 }
 
 // expiryCheckerLike: an expiry checker, or a function whose every success return is guaranteed by a call of one on
@@ -671,15 +711,17 @@ func (c *Ctx) ruleC06_2For(f *ssa.Function) {
 	const R = "R-C06-2"
 	li := c.expiryChecker(f)
 	fn := fname(f)
-	var parse ssa.CallInstruction
-	for _, call := range callsIn(f, "time.Parse") {
-		if org(call.Common().Args[1]) == fmt.Sprintf("p%d.Expires", li) {
-			parse = call
-		}
-	}
+	parse, parseInF := c.expiryParse(f, li)
 	if parse == nil {
 		c.bad(R, fn, "time.Parse", f.Pos(), "expiry is not parsed with time.Parse")
 		return
+	}
+	// the timestamp is UTC: time.Parse (which reads a zone-less layout as UTC), or ParseInLocation with time.UTC
+	if calleeName(parse) == "time.ParseInLocation" {
+		loc := org(parse.Common().Args[2])
+		c.check(loc == "global(time.UTC)", R, fname(parse.Parent()), "the expiry is read as UTC", parse.Pos(), "time.UTC", "the expiry timestamp is interpreted in "+short(loc)+", not in UTC: the literal Z of the layout is not a zone, so the instant shifts by the verifier's UTC offset")
+	} else {
+		c.ok(R, fname(parse.Parent()), "the expiry is read as UTC", parse.Pos(), "time.Parse: a layout without zone token yields UTC")
 	}
 	// the time compared with is the clock at the time of the call: time.Now() in the checker itself, or a time.Time
 	// parameter that every call site fills with a fresh time.Now()
@@ -736,7 +778,7 @@ func (c *Ctx) ruleC06_2For(f *ssa.Function) {
 		}
 	}
 	// comparison with the current time
-	t := resultN(parse, 0)
+	t := resultN(parseInF, 0)
 	found := false
 	for _, b := range f.Blocks {
 		for _, in := range b.Instrs {
